@@ -43,6 +43,7 @@ class History:
             d.update(open=False, client_text=None, srv_text=None, env=None, flags=set(), ever=False)
         self.disk = {}
         self.user_words = []
+        self.last_added = ""
         self.file_words = {"A": [], "B": [], "U": []}
         self.settings = {}
         self.trace = []
@@ -172,7 +173,7 @@ class History:
         self.wait(lambda: self.server.n_publishes(d["uri"]) > n)
         d.update(open=False, flags=set(), last_text=d["client_text"])
 
-    def op_add(self, k, user):
+    def op_add(self, k, user, force=None):
         d = self.docs[k]
         w = self.rng.choice(WORDS)
         # what a user does: the word added is mostly one that is flagged in this very document
@@ -186,6 +187,9 @@ class History:
             v = b.lower() if b != b.lower() else self.rng.choice([b.capitalize(), b.upper()])
             if v != b:
                 w = v
+        if force:
+            w = force
+        self.last_added = w
         self.trace.append({"op": "HarperAddToUserDict" if user else "HarperAddToFileDict", "doc": k, "word": w})
         n = self.server.n_publishes(d["uri"])
         self.server.command("HarperAddToUserDict" if user else "HarperAddToFileDict", [w, d["uri"]])
@@ -395,7 +399,13 @@ def run_history(base, refbase, idx, seed, tier):
             elif r < 0.68:
                 h.op_save(rng.choice(opened))
             elif r < 0.78:
-                h.op_add(rng.choice(opened), rng.random() < 0.6)
+                ka, ua = rng.choice(opened), rng.random() < 0.6
+                h.op_add(ka, ua)
+                if rng.random() < 0.4 and h.last_added.isascii():
+                    # the user changes their mind about the capitalisation of the word just added
+                    h.check_all("step %d (add)" % step)
+                    b = h.last_added
+                    h.op_add(ka, ua, force=b.lower() if b != b.lower() else rng.choice([b.capitalize(), b.upper()]))
             elif r < 0.86:
                 h.op_config()
             elif r < 0.93:
